@@ -66,6 +66,9 @@ func parseXOp(fields []string) *Prog {
 // the files are raw text and the AST is recovered with the real parser.
 // known: id of the known finding whose shape the case has ("" = none).
 func c08Case(c *checker, p *Prog, structured bool, how, known string) {
+	if len(c.rep.Disagreements) >= 40 {
+		return // enough failing inputs; every further crash costs seconds
+	}
 	dir := c.newDir()
 	defer os.RemoveAll(dir)
 	if err := p.Write(dir); err != nil {
@@ -375,7 +378,7 @@ func mutateTokens(r *rng.R, text string) string {
 }
 
 func runC08(c *checker, r *rng.R) {
-	nValid, nMut, nBytes, k := 250, 1100, 250, 4
+	nValid, nMut, nBytes, k := 1800, 7000, 1200, 5
 	if *tier == "thorough" {
 		nValid, nMut, nBytes, k = 4000, 30000, 5000, 6
 	}
